@@ -2,6 +2,7 @@
 """seed_meta.py <name> <property> <needs> : writes seeded/<name>/meta.json from summary.txt"""
 import json, sys, os, re
 name, prop, needs = sys.argv[1], sys.argv[2], sys.argv[3]
+history = sys.argv[4] if len(sys.argv) > 4 else ""
 d = os.path.join(os.path.dirname(os.path.dirname(os.path.abspath(__file__))), "seeded", name)
 s = open(os.path.join(d, "summary.txt")).read()
 checks = {m.group(1): {"exit": int(m.group(2)), "violation_lines": int(m.group(3))} for m in re.finditer(r"check (\w+) rc=(\d+) : (\d+) VIOLATION", s)}
@@ -12,5 +13,7 @@ meta = {"breaks_property": prop, "needs_to_manifest": needs,
         "ran": "tools/confirm_seed.sh (apply patch in scratch worktree, build + ctest full upstream suite, run demo with/without, VERIF_REPO_INCLUDE=<worktree>/include ./verif check <id> --tier quick)",
         "checks": checks,
         "caught": all(c["exit"] == 1 and c["violation_lines"] > 0 for c in checks.values()) if checks else False}
+if history:
+    meta["history"] = history
 json.dump(meta, open(os.path.join(d, "meta.json"), "w"), indent=1)
 print(name, "caught" if meta["caught"] else "MISSED", checks)
